@@ -27,7 +27,30 @@ def run_check(prop_id: str, tier: str, repo: str, verbose: bool, evidence_dir: s
         ix = Index(repo)
         fo = Folder(ix)
         c = Check(prop_id, tier, ix, fo, verbose)
+        # every clause of the property is run even when an earlier one meets something it does not understand (or
+        # crashes): what the other clauses find is reported (exit 1) together with the ANALYSIS-ERROR of the first
+        # clause that failed - a violation is never hidden behind an "anchor not found" elsewhere in the same check
+        deferred = []
+        for name in sorted(vars(mod)):
+            fn = getattr(mod, name)
+            if name.startswith('clause_') and callable(fn) and getattr(fn, '__module__', None) == mod.__name__ \
+                    and not getattr(fn, '_sa_wrapped', False):
+                def wrapped(*a, _fn=fn, **k):
+                    try:
+                        return _fn(*a, **k)
+                    except AnalysisError as ex_:
+                        deferred.append(str(ex_))
+                    except RecursionError:
+                        deferred.append('analyser crashed: RecursionError in %s' % _fn.__name__)
+                    except Exception as ex_:
+                        traceback.print_exc()
+                        deferred.append('analyser crashed in %s: %s: %s' % (_fn.__name__, type(ex_).__name__, ex_))
+                    return None
+                wrapped._sa_wrapped = True
+                setattr(mod, name, wrapped)
         mod.check(c)
+        if deferred:
+            raise AnalysisError(deferred[0] + (' (and %d more)' % (len(deferred) - 1) if len(deferred) > 1 else ''))
         return c.finish(evidence_dir, replay_dir, seed)
     except AnalysisError as ex:
         msg = str(ex)
